@@ -7,6 +7,13 @@ def replay(w):
     from world import World
 
     wd = World(w["world"])
+    if kind == "table-fresh":
+        import check_table
+
+        sc = w["scenario"]
+        j = w["op_index"]
+        im = check_table.run_impl(wd, sc)
+        return im[j]["r"] != check_table.fresh_impl(wd, sc, j)
     if kind == "table":
         import check_table
 
